@@ -252,7 +252,8 @@ type Machine struct {
 	warnMark     int
 	Bare         bool
 	NoHN, NoHI   bool
-	before       []uint8 // bare mode: memory image before the Step
+	BareIO       z80.DumbIO // set: the DumbIO is attached to the CPU directly
+	before       []uint8    // bare mode: memory image before the Step
 	beforeMap    map[uint16]uint8
 }
 
@@ -344,6 +345,7 @@ type InitSpec struct {
 	Nin     int  // reads the computed port device has already answered (its counter runs on)
 	Bare    bool // attach the real memory object directly to the CPU (no recording wrapper): type-specific fast paths
 	Sid     int  // scenario id (passed through to the init event for replays)
+	BareIO  bool // attach the real DumbIO directly (no recording wrapper); Step events carry its contents instead of a port log
 	NoHN    bool // no RETNHandler installed
 	NoHI    bool // no RETIHandler installed
 	R       [27]int
@@ -384,8 +386,13 @@ func NewMachine(is *InitSpec) *Machine {
 		for _, c := range is.IOCells {
 			dio.Out(uint8(c[0]), uint8(c[1]))
 		}
-		m.IO = &RecIO{Desc: is.IO, Inner: dio, Acc: &m.Acc}
-		cpu.IO = m.IO
+		if is.BareIO {
+			m.BareIO = dio
+			cpu.IO = dio
+		} else {
+			m.IO = &RecIO{Desc: is.IO, Inner: dio, Acc: &m.Acc}
+			cpu.IO = m.IO
+		}
 	}
 	SetRegs(&cpu.States, is.R)
 	cpu.HALT = is.Halt
@@ -455,6 +462,9 @@ func EmitInit(w *bufio.Writer, is *InitSpec) {
 	}
 	if is.NoHN || is.NoHI {
 		img += fmt.Sprintf(`,"hcfg":%d`, b2i(!is.NoHN)+2*b2i(!is.NoHI))
+	}
+	if is.BareIO {
+		img += `,"bareio":true`
 	}
 	fmt.Fprintf(w, `{"e":"i","sid":%d,"r":%s,"h":%d,"dev":["%s",%d,%d,%d],"io":["%s",%d,%d],"cells":%s,"iocells":%s,"pend":%s%s}`+"\n",
 		is.Sid, jInts(r[:]), b2i(is.Halt), is.Dev.Kind, is.Dev.Seed, is.Dev.Val, is.Dev.Len,
@@ -565,9 +575,17 @@ func (m *Machine) EmitStep(w *bufio.Writer) {
 		pio = m.IO.Log
 	}
 	if m.Bare {
-		fmt.Fprintf(w, `{"e":"s","bare":1,"r":%s,"h":%d,"rd":[],"wr":[],"pio":%s,"md":%s,"hc":[%d,%d],"pend":%s}`+"\n",
+		ioc := ""
+		if m.BareIO != nil { // the port device was attached directly: no port log, its contents instead
+			c := make([]int, len(m.BareIO))
+			for i, v := range m.BareIO {
+				c[i] = int(v)
+			}
+			ioc = `,"ioc":` + jInts(c)
+		}
+		fmt.Fprintf(w, `{"e":"s","bare":1,"r":%s,"h":%d,"rd":[],"wr":[],"pio":%s,"md":%s,"hc":[%d,%d],"pend":%s%s}`+"\n",
 			jInts(r[:]), b2i(m.CPU.HALT), jTriples(pio), jPairs(m.bareDiff()),
-			m.H.N-m.lastN, m.H.I-m.lastI, jInts(PendEnc(m.CPU.Interrupt)))
+			m.H.N-m.lastN, m.H.I-m.lastI, jInts(PendEnc(m.CPU.Interrupt)), ioc)
 		return
 	}
 	fmt.Fprintf(w, `{"e":"s","r":%s,"h":%d,"rd":%s,"wr":%s,"pio":%s,"md":%s,"hc":[%d,%d],"pend":%s}`+"\n",
